@@ -92,6 +92,13 @@ def gen_rich_spec(rng, sbml=False):
             "obj": obj, "dir": rng.choice(["max", "max", "min"]),
             "compartments": {"c": "cytosol", "e": "extracellular"} if rng.random() < 0.5 else {}}
     groups = []
+    if not sbml:
+        # values of notes / annotations that are false in a boolean context (the dict formats carry any JSON value)
+        for o in mets + rxns + genes:
+            if rng.random() < 0.12:
+                o["notes"] = rng.choice([{"confidence_level": 0}, {"curated": False, "comment": ""}, {"refs": []}, {"score": 0.0, "k": "v"}])
+            if rng.random() < 0.08:
+                o["annotation"] = rng.choice([{"sbo": "SBO:0000176", "xrefs": []}, {"ec-code": ""}, {"level": 0}])
     if sbml:
         for gid in rng.sample(["g_1", "grp.2-x", "Glycolysis / Gluconeogenesis", "9th"], rng.choice([0, 1, 1, 2])):
             groups.append({"id": gid, "name": rng.choice(["a pathway", "", "Transport, extracellular"]),
@@ -155,6 +162,8 @@ def build(spec) -> Model:
                 G = m.genes.get_by_id(g["id"])
                 G.name = g["name"]
                 G.annotation = dict(g["annotation"])
+                if g.get("notes"):
+                    G.notes = dict(g["notes"])
         m.objective = {m.reactions.get_by_id(k): fl(v) for k, v in spec["obj"].items()}
         m.objective_direction = spec["dir"]
         if spec.get("compartments"):
